@@ -12,7 +12,8 @@ construction, bias and sign arguments, hstack of b and A, column variables looke
                      polyhedron (all columns free) has a leaf part that makes the model true                      (C02)
   glue.columns       column 0 is the support column; every other column carries the id AND the bounds of a node
 
-`flatten()` is taken by contract (the nodes in id order); unbounded width is the business of lemma.enc_sound /
+`flatten()` is the real one as well (its hashing/equality on symbolic fields multiplies the paths); unbounded width is the
+business of lemma.enc_sound /
 lemma.sound_safe (contracts/c01.py); shapes here: a flat node, a nested node, a shared leaf, depth 3.
 """
 import itertools
@@ -56,7 +57,7 @@ def build(c, repo, shape, signs):
         return n
     top = mk("T")
     flat = [objs[k] for k in sorted(objs)]
-    top.__dict__["flatten"] = lambda: list(flat)
+    # flatten() is the real one (sorted(set(chain(...))) over objects with symbolic fields)
     return top, objs, leaves, lo, hi, vals
 
 
